@@ -1,2 +1,178 @@
--- driver stub (replaced when the model for C18 is built)
-def main : IO Unit := pure ()
+/-
+  Driver for C18: one TOUGH2 grid per request line.
+
+  request   rectgeo <maxvol> <conv> <atm> <left 0|1> <chars> <spaces 0|1> <order> <snap> <origin name|->
+                    <nblocks> {<name> <volume> <cx> <cy> <cz> | <name> <volume> -}*
+                    <nconns>  {<b0> <b1> <dirn> <d0> <d1>}*
+  names are `x` + hex; rationals `num/den` or integers.
+
+  reply     exc <E>
+          | ok O <origin block> S <n1> {dx}* <n2> {dy}* <n3> {dz}*
+               R <exact 0|1> <cos> <sin>
+               L <n> {<name> <bottom> <centre> <top>}*
+               C <n> {<name> <cx> <cy> <surface> <area> <k> {<x> <y>}*}*
+               N <n> {<name>}*                       (block_name_list of the reconstructed geometry)
+               M <n> {<key> <value>}*                (block map)
+               F <5 bits>                            (model fromgeo(geo, map) vs the original grid: block names,
+                                                      volumes, connection names, directions, distances; 1e-9)
+          | bad <msg>
+-/
+import PyTough.Model.RectGeo
+import PyTough.Py.Proto
+open Py Model.FromGeo Model.RectGeo
+
+namespace DrvC18
+
+abbrev P := StateT (List String) (Except String)
+
+def tok : P String := do
+  match (← get) with
+  | [] => throw "eof"
+  | t :: r => set r; pure t
+
+def pNat : P Nat := do
+  let t ← tok
+  match t.toNat? with
+  | some n => pure n
+  | none => throw s!"nat {t}"
+
+def parseRat (t : String) : Option Rat :=
+  match t.splitOn "/" with
+  | [a] => a.toInt?.map (fun (i : Int) => (i : Rat))
+  | [a, b] => match a.toInt?, b.toNat? with
+    | some i, some d => if d = 0 then none else some (mkRat i d)
+    | _, _ => none
+  | _ => none
+
+def pRat : P Rat := do
+  let t ← tok
+  match parseRat t with
+  | some q => pure q
+  | none => throw s!"rat {t}"
+
+def nameOf (t : String) : Option Str :=
+  match t.toList with
+  | 'x' :: h => some (ofHex (String.ofList h))
+  | _ => none
+
+def pName : P Str := do
+  let t ← tok
+  match nameOf t with
+  | some n => pure n
+  | none => throw s!"name {t}"
+
+def pMany {α} (p : P α) : Nat → P (List α)
+  | 0 => pure []
+  | n + 1 => do
+    let a ← p
+    let r ← pMany p n
+    pure (a :: r)
+
+def pBlock : P GBlock := do
+  let n ← pName
+  let v ← pRat
+  let t ← tok
+  if t = "-" then pure ⟨n, v, none⟩ else
+  match parseRat t with
+  | none => throw s!"rat {t}"
+  | some x =>
+    let y ← pRat
+    let z ← pRat
+    pure ⟨n, v, some ⟨x, y, z⟩⟩
+
+def pConn : P GConn := do
+  let a ← pName
+  let b ← pName
+  let d ← pNat
+  let d0 ← pRat
+  let d1 ← pRat
+  pure ⟨a, b, d, d0, d1⟩
+
+def pReq : P (TGrid × Params) := do
+  let mv ← pRat
+  let conv ← pNat
+  let atm ← pNat
+  let left ← pNat
+  let chars ← pName
+  let spaces ← pNat
+  let order ← pNat
+  let snap ← pRat
+  let ot ← tok
+  let nb ← pNat
+  let blocks ← pMany pBlock nb
+  let nc ← pNat
+  let conns ← pMany pConn nc
+  pure (⟨blocks, conns⟩, ⟨mv, ⟨conv, atm, left = 1, chars, spaces = 1, order⟩, snap, nameOf ot⟩)
+
+def showRat (q : Rat) : String := if q.den = 1 then s!"{q.num}" else s!"{q.num}/{q.den}"
+def showName (s : Str) : String := "x" ++ toHex s
+def showList (l : List Rat) : String := s!"{l.length} " ++ " ".intercalate (l.map showRat)
+
+/-- `‖Δ‖`: exact when `‖Δ‖²` is a perfect square, else to about 10⁻³⁰ relative -/
+def normOf (d : P2) : Rat × Bool :=
+  let q := d.x * d.x + d.y * d.y
+  match ratSqrt? q with
+  | some r => (r, true)
+  | none =>
+    -- sqrt(n/d) = sqrt(n*d)/d, scaled by 10^60 under the root
+    let n := q.num.toNat * q.den
+    let s := isqrt (n * 10 ^ 60)
+    (mkRat s (q.den * 10 ^ 30), false)
+
+def showLayer (l : Layer) : String := s!"{showName l.name} {showRat l.bottom} {showRat l.centre} {showRat l.top}"
+def showColumn (c : Column) : String :=
+  s!"{showName c.name} {showRat c.centre.x} {showRat c.centre.y} {showRat c.surface} {showRat c.area} {c.nodes.length} " ++
+  " ".intercalate (c.nodes.map fun p => s!"{showRat p.x} {showRat p.y}")
+
+def absQ (q : Rat) : Rat := if q < 0 then -q else q
+/-- `|a - b| ≤ 10⁻⁹ max(|a|, |b|)` -/
+def closeQ (a b : Rat) : Bool :=
+  decide (absQ (a - b) ≤ mkRat 1 1000000000 * (if absQ a < absQ b then absQ b else absQ a))
+
+/-- comparison (to 10⁻⁹ relative) of the grid regenerated *by the model* — `fromgeo (rectgeo T)` with
+    the returned block map — with the original grid: block names and order, volumes of the blocks
+    that are not boundary blocks, connection names and order, directions, distances (squared).
+    One character per clause. -/
+def regenerated (T : TGrid) (maxVol : Rat) (g : Geo) (mp : BlockMap) : String :=
+  match fromgeo g mp with
+  | .error _ => "0e"
+  | .ok t =>
+    let b (x : Bool) : String := if x then "1" else "0"
+    let boundary := (T.blocks.filter (fun x => !(volOk (some maxVol) x))).map (·.name)
+    b (t.blocks.map (·.name) == T.blocks.map (·.name)) ++
+    b ((t.blocks.zip T.blocks).all (fun (a, b) =>
+      !(volOk (some maxVol) b) || (match a.volume with | some v => closeQ v b.volume | none => false))) ++
+    b (t.conns.map TConn.names == T.conns.map (fun c => (c.b0, c.b1))) ++
+    b ((t.conns.zip T.conns).all (fun (a, b) => a.dirn == b.dirn)) ++
+    b ((t.conns.zip T.conns).all (fun (a, b) =>
+      closeQ (a.d0.coef * a.d0.coef * a.d0.rad) (b.d0 * b.d0) &&
+      (closeQ (a.d1.coef * a.d1.coef * a.d1.rad) (b.d1 * b.d1) || boundary.contains a.b1)))
+
+def handleRectgeo (T : TGrid) (p : Params) : String :=
+  match stage1 T p with
+  | .error e => "exc " ++ e.toString
+  | .ok s =>
+    let (nrm, exact) := normOf s.delta
+    match stage2 T p s nrm with
+    | .error e => "exc " ++ e.toString
+    | .ok (g, mp) =>
+      let cs := cosSin s.delta s.second nrm
+      s!"ok O {showName s.ob.name} S {showList s.spacings.1} {showList s.spacings.2.1} {showList s.spacings.2.2}" ++
+      s!" R {if exact then 1 else 0} {showRat cs.x} {showRat cs.y}" ++
+      s!" L {g.layerlist.length} " ++ " ".intercalate (g.layerlist.map showLayer) ++
+      s!" C {g.columns.length} " ++ " ".intercalate (g.columns.map showColumn) ++
+      s!" N {g.blockNames.length} " ++ " ".intercalate (g.blockNames.map showName) ++
+      s!" M {mp.length} " ++ " ".intercalate (mp.map fun kv => showName kv.1 ++ " " ++ showName kv.2) ++
+      " F " ++ regenerated T p.maxVol g mp
+
+def handle : List String → String
+  | "rectgeo" :: rest =>
+    match (pReq.run rest) with
+    | .ok ((t, p), []) => handleRectgeo t p
+    | .ok (_, _) => "bad trailing"
+    | .error e => "bad " ++ e
+  | _ => "bad-op"
+
+end DrvC18
+
+def main : IO Unit := serve DrvC18.handle
